@@ -1,7 +1,7 @@
 (* C03 reverse direction for the model: whatever the VALIDATING decoder accepts re-encodes (with validation) to
    exactly the consumed bytes - no byte string other than the canonical one decodes to a value. By mutual structural
-   induction on the schema, for all byte strings. time.Time is excluded here (saturation above MaxInt64 ns is the
-   documented non-injective case) and treated by its own lemma under the stamp guard. *)
+   induction on the schema, for all byte strings. Guard [times_ok]: every decoded time stamp lies in [0, MaxInt64) ns,
+   i.e. no stamp of the input was saturated / wrapped by ReadTime (the documented non-injective case). *)
 From Coq Require Import List NArith ZArith Bool Lia PeanoNat Permutation Sorting.Sorted.
 From Verif.C01_Serix Require Import Model Layout Bound SortLex RoundTrip.
 Import ListNotations.
@@ -95,7 +95,6 @@ Qed.
 
 Fixpoint wfc (s : schema) : Prop :=
   match s with
-  | STime => False
   | SPtr s' => ptr_target_ok s' = true /\ wfc s'
   | SStruct _ fs => wfc_fields fs
   | SSlice _ _ e | SArr _ _ _ e => wfc e /\ zero_size e = false
@@ -265,21 +264,58 @@ Qed.
 
 (* ---------- inversion of the loop: the accepted elements re-encode to the consumed bytes ---------- *)
 
+(* the guard of the property: the decoded value holds no time stamp that ReadTime may have saturated or wrapped *)
+Fixpoint times_ok (s : schema) (v : value) {struct s} : Prop :=
+  match s, v with
+  | STime, VTime ns => (0 <= ns < MaxInt64)%Z
+  | SPtr s', _ => times_ok s' v
+  | SStruct _ fs, VL vs => times_ok_fields fs vs
+  | SSlice _ _ e, VL vs | SArr _ _ _ e, VL vs => Forall (times_ok e) vs
+  | SMap _ _ k ve, VMap es => Forall (fun kv => times_ok k (fst kv) /\ times_ok ve (snd kv)) es
+  | SIface _ al, VIface c v' => times_ok_alt c al v'
+  | _, _ => True
+  end
+with times_ok_fields (fs : fields) (vs : list value) {struct fs} : Prop :=
+  match fs, vs with
+  | FCons k s r, v :: vs' =>
+      (match k with
+       | FPlain | FOpt => times_ok s v
+       | FEmb | FEmbPtr => match s, v with SStruct _ fs', VL vs'' => times_ok_fields fs' vs'' | _, _ => True end
+       end) /\ times_ok_fields r vs'
+  | _, _ => True
+  end
+with times_ok_alt (c : N) (al : alts) (v : value) {struct al} : Prop :=
+  match al with
+  | ANil => True
+  | ACons c' s r => if c =? c' then times_ok s v else times_ok_alt c r v
+  end.
+
 Definition canon_elem (tot : nat) (e : schema) : Prop :=
-  forall d b v n, wfb b -> decode true tot e b = Ok (v, n) -> encode true d e v = Ok (firstn n b) /\ v <> VNil.
+  forall d b v n, wfb b -> decode true tot e b = Ok (v, n) ->
+    v <> VNil /\ (times_ok e v -> encode true d e v = Ok (firstn n b)).
+
+Lemma forall2_len : forall {X Y} (P : X -> Y -> Prop) xs ys, Forall2 P xs ys -> length xs = length ys.
+Proof. intros X Y P xs ys H. induction H; simpl; auto. Qed.
+
+Lemma forall2_mapM : forall {X} (tok : X -> Prop) (encx : X -> res bytes) xs data,
+  Forall2 (fun x d => tok x -> encx x = Ok d) xs data -> Forall tok xs -> mapM encx xs = Ok data.
+Proof.
+  intros X tok encx xs data H. induction H; intros Ht; [reflexivity |].
+  inversion Ht; subst. cbn [mapM]. rewrite (H H3). cbn [bind]. rewrite IHForall2 by assumption. reflexivity.
+Qed.
 
 Section LoopInv.
   Context {A X : Type} (item : A -> bytes -> res (A * nat)) (r : arules).
-  Context (push : X -> A -> A) (encx : X -> res bytes).
-  (* every successful item pushes one x whose encoding is the consumed prefix, and consumes at least one byte *)
+  Context (push : X -> A -> A) (P : X -> bytes -> Prop).
+  (* every successful item pushes one x related to the consumed prefix, and consumes at least one byte *)
   Hypothesis item_inv : forall acc b a n, wfb b -> item acc b = Ok (a, n) ->
-    exists x, a = push x acc /\ encx x = Ok (firstn n b) /\ (1 <= n)%nat.
+    exists x, a = push x acc /\ P x (firstn n b) /\ (1 <= n)%nat.
 
   Lemma seq_loop_inv : forall fuel st acc b a m, wfb b ->
     seq_loop item true r fuel st acc b = Ok (a, m) ->
     exists xs data st',
       a = fold_left (fun acc x => push x acc) xs acc /\ length xs = fuel /\
-      mapM encx xs = Ok data /\ concat data = firstn m b /\ (fuel <= m)%nat /\
+      Forall2 P xs data /\ concat data = firstn m b /\ (fuel <= m)%nat /\
       Forall (fun d => d <> []) data /\
       (has_validator r = true -> vfold r false st data = Ok st').
   Proof.
@@ -293,7 +329,7 @@ Section LoopInv.
       destruct (IH _ _ _ _ _ (wfb_skipn n b Hw) Hl) as [xs [data [st' [Hxs [Hlen [Hm [Hc [Hk [Hne Hvf]]]]]]]]].
       exists (x :: xs), (firstn n b :: data), st'.
       split; [subst; reflexivity |]. split; [simpl; lia |].
-      split; [cbn [mapM]; rewrite Hx; cbn [bind]; rewrite Hm; reflexivity |].
+      split; [constructor; assumption |].
       split; [cbn [concat]; rewrite Hc, <- firstn_add; reflexivity |].
       split; [lia |].
       split.
@@ -331,21 +367,21 @@ Proof.
   rewrite Hva. cbn [bind]. rewrite Hc, <- firstn_add. reflexivity.
 Qed.
 
-Lemma dec_seq_canon : forall {A X} (item : A -> bytes -> res (A * nat)) (r : arules) (push : X -> A -> A) (encx : X -> res bytes),
+Lemma dec_seq_canon : forall {A X} (item : A -> bytes -> res (A * nat)) (r : arules) (push : X -> A -> A) (P : X -> bytes -> Prop),
   (forall acc b a n, wfb b -> item acc b = Ok (a, n) ->
-     exists x, a = push x acc /\ encx x = Ok (firstn n b) /\ (1 <= n)%nat) ->
+     exists x, a = push x acc /\ P x (firstn n b) /\ (1 <= n)%nat) ->
   forall l tot init b a n, wfb b ->
   dec_seq item true l r false tot init b = Ok (a, n) ->
-  exists xs data, a = fold_left (fun acc x => push x acc) xs init /\ mapM encx xs = Ok data /\
+  exists xs data, a = fold_left (fun acc x => push x acc) xs init /\ Forall2 P xs data /\
     check_bounds (ar_min r) (ar_max r) (N.of_nat (length xs)) = Ok tt /\
     enc_seq true l r data = Ok (firstn n b).
 Proof.
-  intros A X item r push encx Hinv l tot init b a n Hw H. unfold dec_seq in H.
+  intros A X item r push P Hinv l tot init b a n Hw H. unfold dec_seq in H.
   apply bind_ok in H as [cnt [Hr H]]. apply bind_ok in H as [[] [Hcb H]].
   unfold seq_fuel in H.
   apply bind_ok in H as [[a' m] [Hl H]]. apply ok_inj in H. inversion H; subst a' n. clear H.
   pose proof (seq_loop_bound _ _ _ _ _ _ _ _ _ Hl) as Hbd.
-  destruct (seq_loop_inv item r push encx Hinv _ _ _ _ _ _ (wfb_skipn _ _ Hw) Hl)
+  destruct (seq_loop_inv item r push P Hinv _ _ _ _ _ _ (wfb_skipn _ _ Hw) Hl)
     as [xs [data [st' [Ha [Hlen [Hm [Hc [Hk [Hne Hvf]]]]]]]]].
   assert (Hcnt : N.of_nat (length xs) = cnt).
   { rewrite Hlen. destruct (N.le_gt_cases cnt (N.of_nat (length (skipn (lpt_size l) b)) + 1)) as [Hle | Hgt].
@@ -353,7 +389,7 @@ Proof.
     - rewrite N.min_r in Hk by lia. lia. }
   exists xs, data. split; [exact Ha |]. split; [exact Hm |]. split; [rewrite Hcnt; exact Hcb |].
   eapply enc_seq_of_decoded; eauto.
-  pose proof (mapM_length _ _ _ Hm) as Hml. unfold bytes in *. rewrite Hml. exact Hcnt.
+  pose proof (forall2_len _ _ _ Hm) as Hml. unfold bytes in *. rewrite <- Hml. exact Hcnt.
 Qed.
 
 (* ---------- numbers ---------- *)
@@ -372,190 +408,6 @@ Proof.
       rewrite Z_mod_plus_full. apply Z.mod_small; exact Hz.
     - apply Z.mod_small; exact Hz. }
   rewrite Hmod, N2Z.id, <- Hl. apply le_enc_dec; assumption.
-Qed.
-
-(* ---------- the mutual induction ---------- *)
-
-Definition Cs (s : schema) : Prop := wfc s -> forall tot, canon_elem tot s.
-Definition Cf (fs : fields) : Prop := wfc_fields fs -> forall tot b vs n, wfb b ->
-  decode_fields true tot fs b = Ok (vs, n) -> encode_fields true fs vs = Ok (firstn n b).
-Definition Ca (al : alts) : Prop := forall d, wfc_alts d al -> forall tot c b v n, wfb b ->
-  decode_alt true tot c al b = Ok (v, n) -> encode_alt true c al v = Ok (firstn n b).
-Definition Pc (s : schema) : Prop := Cs s /\ match s with SStruct _ fs => Cf fs | _ => True end.
-
-Lemma firstn_1_cons : forall {A} (x : A) r, firstn 1 (x :: r) = [x].
-Proof. reflexivity. Qed.
-
-Theorem canonical_all : (forall s, Pc s) /\ (forall fs, Cf fs) /\ (forall al, Ca al).
-Proof.
-  apply schema_fields_alts_ind; unfold Pc.
-  - (* SBool *) split; [| exact I]. intros _ tot d b v n Hw H. cbn [decode] in H.
-    destruct b as [| x b]; try discriminate. destruct x as [| p]; [| destruct p; try discriminate];
-      apply ok_inj in H; inversion H; subst; split; try discriminate; reflexivity.
-  - (* SInt *) intros sg w. split; [| exact I]. intros _ tot d b v n Hw H. cbn [decode] in H.
-    apply bind_ok in H as [bs [Ht H]]. apply take_ok in Ht as [Hl ->]. apply ok_inj in H. inversion H; subst.
-    split; [| discriminate]. cbn [encode]. rewrite enc_dec_int; auto using wfb_firstn. apply firstn_length_le; assumption.
-  - (* SString *) intros l mn mx. split; [| exact I]. intros _ tot d b v n Hw H. cbn [decode] in H.
-    apply bind_ok in H as [len [Hr H]]. apply bind_ok in H as [[] [Hc H]].
-    destruct (N.of_nat (length (skipn (lpt_size l) b)) <? len) eqn:E; try discriminate. apply N.ltb_ge in E.
-    destruct (utf8_valid (firstn (N.to_nat len) (skipn (lpt_size l) b))) eqn:Eu; cbn [andb negb] in H; try discriminate.
-    apply ok_inj in H. inversion H; subst. split; [| discriminate]. cbn [encode].
-    rewrite firstn_length_le by lia. rewrite N2Nat.id.
-    rewrite (check_bounds_of_maxmin _ _ _ Hc). cbn [bind]. rewrite Eu. cbn [bind]. rewrite Hc. cbn [bind].
-    rewrite (write_read_len _ _ _ Hw Hr). cbn [bind]. rewrite <- firstn_add. reflexivity.
-  - (* SBytes *) intros l mn mx. split; [| exact I]. intros _ tot d b v n Hw H. cbn [decode] in H.
-    apply bind_ok in H as [len [Hr H]]. apply bind_ok in H as [[] [Hc H]].
-    destruct (N.of_nat (length (skipn (lpt_size l) b)) <? len) eqn:E; try discriminate. apply N.ltb_ge in E.
-    apply ok_inj in H. inversion H; subst. split; [| discriminate]. cbn [encode].
-    rewrite firstn_length_le by lia. rewrite N2Nat.id.
-    rewrite (check_bounds_of_maxmin _ _ _ Hc). cbn [bind]. rewrite Hc. cbn [bind].
-    rewrite (write_read_len _ _ _ Hw Hr). cbn [bind]. rewrite <- firstn_add. reflexivity.
-  - (* SByteArr *) intros n ty. split; [| exact I]. intros _ tot d b v m Hw H. cbn [decode] in H.
-    apply bind_ok in H as [c [Hc H]]. apply bind_ok in H as [bs [Ht H]]. apply take_ok in Ht as [Hl ->].
-    apply ok_inj in H. inversion H; subst. split; [| discriminate]. cbn [encode].
-    rewrite firstn_length_le by assumption. rewrite Nat.eqb_refl.
-    rewrite (check_code_firstn _ _ _ Hw Hc), <- firstn_add. reflexivity.
-  - (* SU256 *) split; [| exact I]. intros _ tot d b v n Hw H. cbn [decode] in H.
-    apply bind_ok in H as [bs [Ht H]]. apply take_ok in Ht as [Hl Hbs]. apply ok_inj in H. inversion H; subst v n.
-    split; [| discriminate]. rewrite <- Hbs.
-    assert (Hf : wfb bs) by (rewrite Hbs; apply wfb_firstn; assumption).
-    assert (Hlen : length bs = 32%nat) by (rewrite Hbs; apply firstn_length_le; assumption).
-    clear Hbs H. cbn [encode].
-    pose proof (le_dec_lt _ Hf) as Hlt. rewrite Hlen in Hlt.
-    replace (256 ^ N.of_nat 32) with (Z.to_N U256) in Hlt by (vm_compute; reflexivity).
-    assert (Hz : (0 <= Z.of_N (le_dec bs) < U256)%Z).
-    { split; [lia |]. apply N2Z.inj_lt in Hlt. rewrite Z2N.id in Hlt; [exact Hlt | unfold U256; apply Z.pow_nonneg; lia]. }
-    replace (Z.of_N (le_dec bs) <? 0)%Z with false by (symmetry; apply Z.ltb_ge; lia).
-    replace (U256 <=? Z.of_N (le_dec bs))%Z with false by (symmetry; apply Z.leb_gt; lia).
-    cbn [orb]. rewrite N2Z.id. rewrite <- Hlen. rewrite le_enc_dec by assumption. reflexivity.
-  - (* STime *) split; [| exact I]. intros [].
-  - (* SPtr *) intros s [IH _]. split; [| exact I]. intros [Hp Hwf] tot d b v n Hw H. cbn [decode] in H.
-    destruct (IH Hwf tot false b v n Hw H) as [He Hv]. split; [| exact Hv].
-    cbn [encode]. rewrite Hp. destruct v; try congruence; exact He.
-  - (* SStruct *) intros ty fs IH. split; [| exact IH]. intros Hwf tot d b v n Hw H. cbn [decode] in H.
-    destruct (check_code ty b) as [c | e |] eqn:Ec; [| apply bind_ok in H as [? [_ H]]; discriminate | discriminate].
-    apply bind_ok in H as [[vs m] [Hf H]]. apply ok_inj in H. inversion H; subst. split; [| discriminate].
-    cbn [encode]. rewrite (IH Hwf tot _ _ _ (wfb_skipn c b Hw) Hf). cbn [bind].
-    rewrite (check_code_firstn _ _ _ Hw Ec), <- firstn_add. reflexivity.
-  - (* SSlice *) intros l r e [IH _]. split; [| exact I]. intros [Hwf Hz] tot d b v n Hw H. cbn [decode] in H.
-    apply bind_ok in H as [[acc m] [Hd H]]. apply bind_ok in H as [[] [Hmust H]]. apply ok_inj in H. inversion H; subst.
-    split; [| discriminate]. rewrite Hz in Hd.
-    assert (Hinv : forall acc0 b0 a0 n0, wfb b0 ->
-              (let* (v, m) := decode true tot e b0 in Ok (v :: acc0, m)) = Ok (a0, n0) ->
-              exists x, a0 = (fun (x : value) acc => x :: acc) x acc0 /\ encode true true e x = Ok (firstn n0 b0) /\ (1 <= n0)%nat).
-    { intros acc0 b0 a0 n0 Hw0 Hi. apply bind_ok in Hi as [[v0 m0] [Hd0 Hi]]. apply ok_inj in Hi. inversion Hi; subst.
-      exists v0. split; auto. split; [apply (IH Hwf tot true b0 v0 n0 Hw0 Hd0) |].
-      pose proof (decode_min e Hwf _ _ _ _ _ Hd0). unfold zero_size in Hz. apply Nat.eqb_neq in Hz. lia. }
-    destruct (dec_seq_canon _ r _ _ Hinv l tot [] b acc n Hw Hd) as [xs [data [Ha [Hm [Hcb He]]]]].
-    rewrite fold_push_rev, app_nil_r in Ha. subst acc. rewrite rev_involutive in *.
-    cbn [encode]. rewrite Hcb. destruct d; cbn [andb bind]; rewrite Hmust; cbn [bind]; rewrite Hm; cbn [bind]; exact He.
-  - (* SArr *) intros cnt l r e [IH _]. split; [| exact I]. intros [Hwf Hz] tot d b v n Hw H. cbn [decode] in H.
-    apply bind_ok in H as [[acc m] [Hd H]]. apply bind_ok in H as [[] [Hmust H]].
-    destruct (Nat.eqb (length (rev acc)) cnt) eqn:En; try discriminate.
-    apply ok_inj in H. inversion H; subst.
-    split; [| discriminate]. rewrite Hz in Hd.
-    assert (Hinv : forall acc0 b0 a0 n0, wfb b0 ->
-              (let* (v, m) := decode true tot e b0 in Ok (v :: acc0, m)) = Ok (a0, n0) ->
-              exists x, a0 = (fun (x : value) acc => x :: acc) x acc0 /\ encode true true e x = Ok (firstn n0 b0) /\ (1 <= n0)%nat).
-    { intros acc0 b0 a0 n0 Hw0 Hi. apply bind_ok in Hi as [[v0 m0] [Hd0 Hi]]. apply ok_inj in Hi. inversion Hi; subst.
-      exists v0. split; auto. split; [apply (IH Hwf tot true b0 v0 n0 Hw0 Hd0) |].
-      pose proof (decode_min e Hwf _ _ _ _ _ Hd0). unfold zero_size in Hz. apply Nat.eqb_neq in Hz. lia. }
-    destruct (dec_seq_canon _ r _ _ Hinv l tot [] b acc n Hw Hd) as [xs [data [Ha [Hm [Hcb He]]]]].
-    rewrite fold_push_rev, app_nil_r in Ha. subst acc. rewrite rev_involutive in *.
-    cbn [encode]. rewrite En. cbn [negb]. rewrite Hcb.
-    destruct d; cbn [andb bind]; rewrite Hmust; cbn [bind]; rewrite Hm; cbn [bind]; exact He.
-  - (* SMap *) intros l r k [IHk _] ve [IHv _]. split; [| exact I]. intros [Hwk [Hwv Hz]] tot d b v n Hw H.
-    cbn [decode] in H. apply bind_ok in H as [[acc m] [Hd H]]. apply ok_inj in H. inversion H; subst.
-    split; [| discriminate]. rewrite Hz in Hd. fold (map_rules r) in Hd.
-    assert (Hinv : forall (acc0 : list (value * value)) b0 a0 n0, wfb b0 ->
-              (let* (kv, kn) := decode true tot k b0 in
-               if (length b0 <? kn)%nat then Panic else
-               let* (vv, vn) := decode true tot ve (skipn kn b0) in
-               if existsb (fun e => key_eqb kv (fst e)) acc0 then Err EDupKey
-               else Ok ((kv, vv) :: acc0, (kn + vn)%nat)) = Ok (a0, n0) ->
-              exists x, a0 = (fun (x : value * value) acc => x :: acc) x acc0 /\
-                (fun kv => let* kb := encode true true k (fst kv) in
-                           let* vb := encode true true ve (snd kv) in Ok (kb ++ vb)) x = Ok (firstn n0 b0) /\ (1 <= n0)%nat).
-    { intros acc0 b0 a0 n0 Hw0 Hi. apply bind_ok in Hi as [[kv kn] [Hdk Hi]].
-      destruct (length b0 <? kn)%nat eqn:E; try discriminate. apply Nat.ltb_ge in E.
-      apply bind_ok in Hi as [[vv vn] [Hdv Hi]]. destruct (existsb _ _); try discriminate.
-      apply ok_inj in Hi. inversion Hi; subst.
-      exists (kv, vv). split; auto. split.
-      - cbn [fst snd]. rewrite (proj1 (IHk Hwk tot true b0 kv kn Hw0 Hdk)). cbn [bind].
-        rewrite (proj1 (IHv Hwv tot true _ vv vn (wfb_skipn kn b0 Hw0) Hdv)). cbn [bind].
-        rewrite <- firstn_add. reflexivity.
-      - pose proof (decode_min k Hwk _ _ _ _ _ Hdk). pose proof (decode_min ve Hwv _ _ _ _ _ Hdv).
-        unfold zero_size in Hz. apply andb_false_iff in Hz as [Hz | Hz]; apply Nat.eqb_neq in Hz; lia. }
-    destruct (dec_seq_canon _ (map_rules r) _ _ Hinv l tot [] b acc n Hw Hd) as [xs [data [Ha [Hm [Hcb He]]]]].
-    rewrite fold_push_rev, app_nil_r in Ha. subst acc. rewrite rev_involutive in *.
-    cbn [encode]. cbn [map_rules ar_min ar_max] in Hcb. rewrite Hcb. cbn [bind].
-    unfold bytes in *. rewrite Hm. cbn [bind]. exact He.
-  - (* SIface *) intros d al IH. split; [| exact I]. intros Hwf tot d0 b v n Hw H. cbn [decode] in H.
-    apply bind_ok in H as [c [Hp H]]. apply bind_ok in H as [[v' n'] [Hd H]]. apply ok_inj in H. inversion H; subst.
-    split; [| discriminate]. cbn [encode]. eapply IH; eauto.
-  - (* FNil *) intros _ tot b vs n Hw H. cbn [decode_fields] in H. apply ok_inj in H. inversion H; subst. reflexivity.
-  - (* FCons *) intros k s [IHs IHemb] r IHr [Hws [Hwr Hk]] tot b vs n Hw H. cbn [decode_fields] in H.
-    apply bind_ok in H as [[v n1] [Hstep H]].
-    destruct (length b <? n1)%nat eqn:E; try discriminate. apply Nat.ltb_ge in E.
-    apply bind_ok in H as [[vs' m] [Hr H]]. apply ok_inj in H. inversion H; subst. clear H.
-    specialize (IHr Hwr tot _ _ _ (wfb_skipn n1 b Hw) Hr).
-    cbn [encode_fields].
-    assert (Hfb : (match k with
-         | FPlain => encode true true s v
-         | FOpt =>
-             match v with
-             | VNil => Ok (le_enc 4 0)
-             | _ => let* b0 := encode true true s v in Ok (le_enc 4 (N.of_nat (length b0)) ++ b0)
-             end
-         | FEmb =>
-             match s, v with
-             | SStruct _ fs', VL vs'' => encode_fields true fs' vs''
-             | _, _ => Err EOther
-             end
-         | FEmbPtr =>
-             match s, v with
-             | SStruct _ fs', VL vs'' => encode_fields true fs' vs''
-             | _, VNil => Err ENil
-             | _, _ => Err EOther
-             end
-         end) = Ok (firstn n1 b)).
-    { destruct k.
-      - apply (IHs Hws tot true b v n1 Hw Hstep).
-      - destruct (length b <? 4)%nat eqn:E4; try discriminate. apply Nat.ltb_ge in E4.
-        pose proof (wfb_firstn 4 b Hw) as Hf4. pose proof (le_enc_dec _ Hf4) as Hed.
-        rewrite firstn_length_le in Hed by assumption.
-        destruct (le_dec (firstn 4 b) =? 0) eqn:E0.
-        + apply N.eqb_eq in E0. apply ok_inj in Hstep. inversion Hstep; subst. rewrite <- Hed, E0. reflexivity.
-        + apply bind_ok in Hstep as [[v' n'] [Hd Hstep]].
-          destruct (N.of_nat n' =? le_dec (firstn 4 b)) eqn:En; cbn [negb] in Hstep; try discriminate.
-          apply N.eqb_eq in En. apply ok_inj in Hstep. inversion Hstep; subst.
-          destruct (IHs Hws tot true _ _ _ (wfb_skipn 4 b Hw) Hd) as [He Hv].
-          pose proof (decode_consumed _ _ _ _ _ _ Hd) as Hbd.
-          assert (Hres : (let* b0 := encode true true s v in Ok (le_enc 4 (N.of_nat (length b0)) ++ b0)) = Ok (firstn (4 + n') b)).
-          { rewrite He. cbn [bind]. rewrite firstn_length_le by assumption. rewrite En, Hed, <- firstn_add. reflexivity. }
-          destruct v; try congruence; exact Hres.
-      - destruct s; try contradiction. apply bind_ok in Hstep as [[vs0 n0] [Hd Hstep]].
-        apply ok_inj in Hstep. inversion Hstep; subst. apply (IHemb Hws tot b vs0 n1 Hw Hd).
-      - destruct s; try contradiction. apply bind_ok in Hstep as [[vs0 n0] [Hd Hstep]].
-        apply ok_inj in Hstep. inversion Hstep; subst. apply (IHemb Hws tot b vs0 n1 Hw Hd). }
-    rewrite Hfb. cbn [bind]. rewrite IHr. cbn [bind]. rewrite <- firstn_add. reflexivity.
-  - (* ANil *) intros d _ tot c b v n _ H. cbn [decode_alt] in H. discriminate.
-  - (* ACons *) intros c' s [IHs _] r IHr d [Hws [_ Hwr]] tot c b v n Hw H. cbn [decode_alt] in H. cbn [encode_alt].
-    destruct (c =? c'); [apply (IHs Hws tot true b v n Hw H) | eapply IHr; eauto].
-Qed.
-
-Theorem canonical : forall s, wfc s -> forall tot d b v n, wfb b ->
-  decode true tot s b = Ok (v, n) -> encode true d s v = Ok (firstn n b).
-Proof. intros s Hwf tot d b v n Hw H. apply (proj1 (proj1 canonical_all s) Hwf tot d b v n Hw H). Qed.
-
-(* no malleability: two byte strings the validating decoder maps to the same value agree on the consumed prefix *)
-Corollary canonical_injective : forall s, wfc s -> forall tot b1 b2 v n1 n2, wfb b1 -> wfb b2 ->
-  decode true tot s b1 = Ok (v, n1) -> decode true tot s b2 = Ok (v, n2) -> firstn n1 b1 = firstn n2 b2.
-Proof.
-  intros s Hwf tot b1 b2 v n1 n2 H1 H2 D1 D2.
-  pose proof (canonical s Hwf tot true b1 v n1 H1 D1) as E1.
-  pose proof (canonical s Hwf tot true b2 v n2 H2 D2) as E2.
-  rewrite E1 in E2. apply ok_inj in E2. exact E2.
 Qed.
 
 (* time.Time: canonical exactly when the stamp is inside the int64 nanosecond range *)
@@ -581,6 +433,216 @@ Proof.
   reflexivity.
 Qed.
 
+(* ---------- the mutual induction ---------- *)
+
+Lemma time_guard : forall bs, wfb bs -> length bs = 8%nat ->
+  (0 <= u64_to_time (le_dec bs) < MaxInt64)%Z -> (Z.of_N (le_dec bs) <= MaxInt64)%Z.
+Proof.
+  intros bs Hw Hl H. pose proof (le_dec_lt _ Hw) as Hlt. rewrite Hl in Hlt.
+  change (256 ^ N.of_nat 8) with 18446744073709551616 in Hlt.
+  unfold u64_to_time, wrap64, MaxInt64, MaxSec in *.
+  destruct (9223372036 <? Z.of_N (le_dec bs) / 1000000000)%Z; [lia |].
+  rewrite Z.mod_small in H by lia.
+  destruct (9223372036854775807 <? Z.of_N (le_dec bs))%Z eqn:E; [lia |]. apply Z.ltb_ge in E. exact E.
+Qed.
+
+Definition Cs (s : schema) : Prop := wfc s -> forall tot, canon_elem tot s.
+Definition Cf (fs : fields) : Prop := wfc_fields fs -> forall tot b vs n, wfb b ->
+  decode_fields true tot fs b = Ok (vs, n) -> times_ok_fields fs vs -> encode_fields true fs vs = Ok (firstn n b).
+Definition Ca (al : alts) : Prop := forall d, wfc_alts d al -> forall tot c b v n, wfb b ->
+  decode_alt true tot c al b = Ok (v, n) -> times_ok_alt c al v -> encode_alt true c al v = Ok (firstn n b).
+Definition Pc (s : schema) : Prop := Cs s /\ match s with SStruct _ fs => Cf fs | _ => True end.
+
+Theorem canonical_all : (forall s, Pc s) /\ (forall fs, Cf fs) /\ (forall al, Ca al).
+Proof.
+  apply schema_fields_alts_ind; unfold Pc.
+  - (* SBool *) split; [| exact I]. intros _ tot d b v n Hw H. cbn [decode] in H.
+    destruct b as [| x b]; try discriminate. destruct x as [| p]; [| destruct p; try discriminate];
+      apply ok_inj in H; inversion H; subst; split; try discriminate; reflexivity.
+  - (* SInt *) intros sg w. split; [| exact I]. intros _ tot d b v n Hw H. cbn [decode] in H.
+    apply bind_ok in H as [bs [Ht H]]. apply take_ok in Ht as [Hl ->]. apply ok_inj in H. inversion H; subst.
+    split; [discriminate | intros _]. cbn [encode]. rewrite enc_dec_int; auto using wfb_firstn. apply firstn_length_le; assumption.
+  - (* SString *) intros l mn mx. split; [| exact I]. intros _ tot d b v n Hw H. cbn [decode] in H.
+    apply bind_ok in H as [len [Hr H]]. apply bind_ok in H as [[] [Hc H]].
+    destruct (N.of_nat (length (skipn (lpt_size l) b)) <? len) eqn:E; try discriminate. apply N.ltb_ge in E.
+    destruct (utf8_valid (firstn (N.to_nat len) (skipn (lpt_size l) b))) eqn:Eu; cbn [andb negb] in H; try discriminate.
+    apply ok_inj in H. inversion H; subst. split; [discriminate | intros _]. cbn [encode].
+    rewrite firstn_length_le by lia. rewrite N2Nat.id.
+    rewrite (check_bounds_of_maxmin _ _ _ Hc). cbn [bind]. rewrite Eu. cbn [bind]. rewrite Hc. cbn [bind].
+    rewrite (write_read_len _ _ _ Hw Hr). cbn [bind]. rewrite <- firstn_add. reflexivity.
+  - (* SBytes *) intros l mn mx. split; [| exact I]. intros _ tot d b v n Hw H. cbn [decode] in H.
+    apply bind_ok in H as [len [Hr H]]. apply bind_ok in H as [[] [Hc H]].
+    destruct (N.of_nat (length (skipn (lpt_size l) b)) <? len) eqn:E; try discriminate. apply N.ltb_ge in E.
+    apply ok_inj in H. inversion H; subst. split; [discriminate | intros _]. cbn [encode].
+    rewrite firstn_length_le by lia. rewrite N2Nat.id.
+    rewrite (check_bounds_of_maxmin _ _ _ Hc). cbn [bind]. rewrite Hc. cbn [bind].
+    rewrite (write_read_len _ _ _ Hw Hr). cbn [bind]. rewrite <- firstn_add. reflexivity.
+  - (* SByteArr *) intros n ty. split; [| exact I]. intros _ tot d b v m Hw H. cbn [decode] in H.
+    apply bind_ok in H as [c [Hc H]]. apply bind_ok in H as [bs [Ht H]]. apply take_ok in Ht as [Hl ->].
+    apply ok_inj in H. inversion H; subst. split; [discriminate | intros _]. cbn [encode].
+    rewrite firstn_length_le by assumption. rewrite Nat.eqb_refl.
+    rewrite (check_code_firstn _ _ _ Hw Hc), <- firstn_add. reflexivity.
+  - (* SU256 *) split; [| exact I]. intros _ tot d b v n Hw H. cbn [decode] in H.
+    apply bind_ok in H as [bs [Ht H]]. apply take_ok in Ht as [Hl Hbs]. apply ok_inj in H. inversion H; subst v n.
+    split; [discriminate | intros _]. rewrite <- Hbs.
+    assert (Hf : wfb bs) by (rewrite Hbs; apply wfb_firstn; assumption).
+    assert (Hlen : length bs = 32%nat) by (rewrite Hbs; apply firstn_length_le; assumption).
+    clear Hbs H. cbn [encode].
+    pose proof (le_dec_lt _ Hf) as Hlt. rewrite Hlen in Hlt.
+    replace (256 ^ N.of_nat 32) with (Z.to_N U256) in Hlt by (vm_compute; reflexivity).
+    assert (Hz : (0 <= Z.of_N (le_dec bs) < U256)%Z).
+    { split; [lia |]. apply N2Z.inj_lt in Hlt. rewrite Z2N.id in Hlt; [exact Hlt | unfold U256; apply Z.pow_nonneg; lia]. }
+    replace (Z.of_N (le_dec bs) <? 0)%Z with false by (symmetry; apply Z.ltb_ge; lia).
+    replace (U256 <=? Z.of_N (le_dec bs))%Z with false by (symmetry; apply Z.leb_gt; lia).
+    cbn [orb]. rewrite N2Z.id. rewrite <- Hlen. rewrite le_enc_dec by assumption. reflexivity.
+  - (* STime *) split; [| exact I]. intros _ tot d b v n Hw H.
+    assert (Hv : v <> VNil).
+    { cbn [decode] in H. apply bind_ok in H as [bs [_ H]]. apply ok_inj in H. inversion H; subst. discriminate. }
+    split; [exact Hv | intros Ht]. eapply canonical_time; eauto.
+    cbn [decode] in H. apply bind_ok in H as [bs [Htk H]]. apply take_ok in Htk as [Hl Hbs]. apply ok_inj in H.
+    inversion H; subst v n. cbn [times_ok] in Ht. rewrite <- Hbs. apply time_guard; auto.
+    + rewrite Hbs. apply wfb_firstn; assumption.
+    + rewrite Hbs. apply firstn_length_le; assumption.
+  - (* SPtr *) intros s [IH _]. split; [| exact I]. intros [Hp Hwf] tot d b v n Hw H. cbn [decode] in H.
+    destruct (IH Hwf tot false b v n Hw H) as [Hv He]. split; [exact Hv | intros Ht].
+    cbn [times_ok] in Ht. specialize (He Ht). cbn [encode]. rewrite Hp. destruct v; try congruence; exact He.
+  - (* SStruct *) intros ty fs IH. split; [| exact IH]. intros Hwf tot d b v n Hw H. cbn [decode] in H.
+    destruct (check_code ty b) as [c | e |] eqn:Ec; [| apply bind_ok in H as [? [_ H]]; discriminate | discriminate].
+    apply bind_ok in H as [[vs m] [Hf H]]. apply ok_inj in H. inversion H; subst. split; [discriminate | intros Ht].
+    cbn [times_ok] in Ht.
+    cbn [encode]. rewrite (IH Hwf tot _ _ _ (wfb_skipn c b Hw) Hf Ht). cbn [bind].
+    rewrite (check_code_firstn _ _ _ Hw Ec), <- firstn_add. reflexivity.
+  - (* SSlice *) intros l r e [IH _]. split; [| exact I]. intros [Hwf Hz] tot d b v n Hw H. cbn [decode] in H.
+    apply bind_ok in H as [[acc m] [Hd H]]. apply bind_ok in H as [[] [Hmust H]]. apply ok_inj in H. inversion H; subst.
+    split; [discriminate | intros Ht]. rewrite Hz in Hd.
+    assert (Hinv : forall acc0 b0 a0 n0, wfb b0 ->
+              (let* (v, m) := decode true tot e b0 in Ok (v :: acc0, m)) = Ok (a0, n0) ->
+              exists x, a0 = (fun (x : value) acc => x :: acc) x acc0 /\
+                (fun x d => times_ok e x -> encode true true e x = Ok d) x (firstn n0 b0) /\ (1 <= n0)%nat).
+    { intros acc0 b0 a0 n0 Hw0 Hi. apply bind_ok in Hi as [[v0 m0] [Hd0 Hi]]. apply ok_inj in Hi. inversion Hi; subst.
+      exists v0. split; auto. split; [apply (IH Hwf tot true b0 v0 n0 Hw0 Hd0) |].
+      pose proof (decode_min e Hwf _ _ _ _ _ Hd0). unfold zero_size in Hz. apply Nat.eqb_neq in Hz. lia. }
+    destruct (dec_seq_canon _ r _ _ Hinv l tot [] b acc n Hw Hd) as [xs [data [Ha [Hm [Hcb He]]]]].
+    rewrite fold_push_rev, app_nil_r in Ha. subst acc. rewrite rev_involutive in *.
+    cbn [times_ok] in Ht. pose proof (forall2_mapM _ _ _ _ Hm Ht) as Hmm.
+    cbn [encode]. rewrite Hcb. destruct d; cbn [andb bind]; rewrite Hmust; cbn [bind]; rewrite Hmm; cbn [bind]; exact He.
+  - (* SArr *) intros cnt l r e [IH _]. split; [| exact I]. intros [Hwf Hz] tot d b v n Hw H. cbn [decode] in H.
+    apply bind_ok in H as [[acc m] [Hd H]]. apply bind_ok in H as [[] [Hmust H]].
+    destruct (Nat.eqb (length (rev acc)) cnt) eqn:En; try discriminate.
+    apply ok_inj in H. inversion H; subst.
+    split; [discriminate | intros Ht]. rewrite Hz in Hd.
+    assert (Hinv : forall acc0 b0 a0 n0, wfb b0 ->
+              (let* (v, m) := decode true tot e b0 in Ok (v :: acc0, m)) = Ok (a0, n0) ->
+              exists x, a0 = (fun (x : value) acc => x :: acc) x acc0 /\
+                (fun x d => times_ok e x -> encode true true e x = Ok d) x (firstn n0 b0) /\ (1 <= n0)%nat).
+    { intros acc0 b0 a0 n0 Hw0 Hi. apply bind_ok in Hi as [[v0 m0] [Hd0 Hi]]. apply ok_inj in Hi. inversion Hi; subst.
+      exists v0. split; auto. split; [apply (IH Hwf tot true b0 v0 n0 Hw0 Hd0) |].
+      pose proof (decode_min e Hwf _ _ _ _ _ Hd0). unfold zero_size in Hz. apply Nat.eqb_neq in Hz. lia. }
+    destruct (dec_seq_canon _ r _ _ Hinv l tot [] b acc n Hw Hd) as [xs [data [Ha [Hm [Hcb He]]]]].
+    rewrite fold_push_rev, app_nil_r in Ha. subst acc. rewrite rev_involutive in *.
+    cbn [times_ok] in Ht. pose proof (forall2_mapM _ _ _ _ Hm Ht) as Hmm.
+    cbn [encode]. rewrite En. cbn [negb]. rewrite Hcb.
+    destruct d; cbn [andb bind]; rewrite Hmust; cbn [bind]; rewrite Hmm; cbn [bind]; exact He.
+  - (* SMap *) intros l r k [IHk _] ve [IHv _]. split; [| exact I]. intros [Hwk [Hwv Hz]] tot d b v n Hw H.
+    cbn [decode] in H. apply bind_ok in H as [[acc m] [Hd H]]. apply ok_inj in H. inversion H; subst.
+    split; [discriminate | intros Ht]. rewrite Hz in Hd. fold (map_rules r) in Hd.
+    assert (Hinv : forall (acc0 : list (value * value)) b0 a0 n0, wfb b0 ->
+              (let* (kv, kn) := decode true tot k b0 in
+               if (length b0 <? kn)%nat then Panic else
+               let* (vv, vn) := decode true tot ve (skipn kn b0) in
+               if existsb (fun e => key_eqb kv (fst e)) acc0 then Err EDupKey
+               else Ok ((kv, vv) :: acc0, (kn + vn)%nat)) = Ok (a0, n0) ->
+              exists x, a0 = (fun (x : value * value) acc => x :: acc) x acc0 /\
+                (fun (x : value * value) dd => times_ok k (fst x) /\ times_ok ve (snd x) ->
+                   (let* kb := encode true true k (fst x) in
+                    let* vb := encode true true ve (snd x) in Ok (kb ++ vb)) = Ok dd) x (firstn n0 b0) /\ (1 <= n0)%nat).
+    { intros acc0 b0 a0 n0 Hw0 Hi. apply bind_ok in Hi as [[kv kn] [Hdk Hi]].
+      destruct (length b0 <? kn)%nat eqn:E; try discriminate. apply Nat.ltb_ge in E.
+      apply bind_ok in Hi as [[vv vn] [Hdv Hi]]. destruct (existsb _ _); try discriminate.
+      apply ok_inj in Hi. inversion Hi; subst.
+      exists (kv, vv). split; auto. split.
+      - cbn [fst snd]. intros [Htk Htv].
+        rewrite (proj2 (IHk Hwk tot true b0 kv kn Hw0 Hdk) Htk). cbn [bind].
+        rewrite (proj2 (IHv Hwv tot true _ vv vn (wfb_skipn kn b0 Hw0) Hdv) Htv). cbn [bind].
+        rewrite <- firstn_add. reflexivity.
+      - pose proof (decode_min k Hwk _ _ _ _ _ Hdk). pose proof (decode_min ve Hwv _ _ _ _ _ Hdv).
+        unfold zero_size in Hz. apply andb_false_iff in Hz as [Hz | Hz]; apply Nat.eqb_neq in Hz; lia. }
+    destruct (dec_seq_canon _ (map_rules r) _ _ Hinv l tot [] b acc n Hw Hd) as [xs [data [Ha [Hm [Hcb He]]]]].
+    rewrite fold_push_rev, app_nil_r in Ha. subst acc. rewrite rev_involutive in *.
+    cbn [times_ok] in Ht.
+    pose proof (forall2_mapM (fun x : value * value => times_ok k (fst x) /\ times_ok ve (snd x)) _ _ _ Hm Ht) as Hmm.
+    cbn [encode]. cbn [map_rules ar_min ar_max] in Hcb. rewrite Hcb. cbn [bind].
+    unfold bytes in *. rewrite Hmm. cbn [bind]. exact He.
+  - (* SIface *) intros d al IH. split; [| exact I]. intros Hwf tot d0 b v n Hw H. cbn [decode] in H.
+    apply bind_ok in H as [c [Hp H]]. apply bind_ok in H as [[v' n'] [Hd H]]. apply ok_inj in H. inversion H; subst.
+    split; [discriminate | intros Ht]. cbn [times_ok] in Ht. cbn [encode]. eapply IH; eauto.
+  - (* FNil *) intros _ tot b vs n Hw H _. cbn [decode_fields] in H. apply ok_inj in H. inversion H; subst. reflexivity.
+  - (* FCons *) intros k s [IHs IHemb] r IHr [Hws [Hwr Hk]] tot b vs n Hw H Ht. cbn [decode_fields] in H.
+    apply bind_ok in H as [[v n1] [Hstep H]].
+    destruct (length b <? n1)%nat eqn:E; try discriminate. apply Nat.ltb_ge in E.
+    apply bind_ok in H as [[vs' m] [Hr H]]. apply ok_inj in H. inversion H; subst. clear H.
+    cbn [times_ok_fields] in Ht. destruct Ht as [Htv Htr].
+    specialize (IHr Hwr tot _ _ _ (wfb_skipn n1 b Hw) Hr Htr).
+    cbn [encode_fields].
+    assert (Hfb : (match k with
+         | FPlain => encode true true s v
+         | FOpt =>
+             match v with
+             | VNil => Ok (le_enc 4 0)
+             | _ => let* b0 := encode true true s v in Ok (le_enc 4 (N.of_nat (length b0)) ++ b0)
+             end
+         | FEmb =>
+             match s, v with
+             | SStruct _ fs', VL vs'' => encode_fields true fs' vs''
+             | _, _ => Err EOther
+             end
+         | FEmbPtr =>
+             match s, v with
+             | SStruct _ fs', VL vs'' => encode_fields true fs' vs''
+             | _, VNil => Err ENil
+             | _, _ => Err EOther
+             end
+         end) = Ok (firstn n1 b)).
+    { destruct k.
+      - apply (proj2 (IHs Hws tot true b v n1 Hw Hstep) Htv).
+      - destruct (length b <? 4)%nat eqn:E4; try discriminate. apply Nat.ltb_ge in E4.
+        pose proof (wfb_firstn 4 b Hw) as Hf4. pose proof (le_enc_dec _ Hf4) as Hed.
+        rewrite firstn_length_le in Hed by assumption.
+        destruct (le_dec (firstn 4 b) =? 0) eqn:E0.
+        + apply N.eqb_eq in E0. apply ok_inj in Hstep. inversion Hstep; subst. rewrite <- Hed, E0. reflexivity.
+        + apply bind_ok in Hstep as [[v' n'] [Hd Hstep]].
+          destruct (N.of_nat n' =? le_dec (firstn 4 b)) eqn:En; cbn [negb] in Hstep; try discriminate.
+          apply N.eqb_eq in En. apply ok_inj in Hstep. inversion Hstep; subst.
+          destruct (IHs Hws tot true _ _ _ (wfb_skipn 4 b Hw) Hd) as [Hv He]. specialize (He Htv).
+          pose proof (decode_consumed _ _ _ _ _ _ Hd) as Hbd.
+          assert (Hres : (let* b0 := encode true true s v in Ok (le_enc 4 (N.of_nat (length b0)) ++ b0)) = Ok (firstn (4 + n') b)).
+          { rewrite He. cbn [bind]. rewrite firstn_length_le by assumption. rewrite En, Hed, <- firstn_add. reflexivity. }
+          destruct v; try congruence; exact Hres.
+      - destruct s; try contradiction. apply bind_ok in Hstep as [[vs0 n0] [Hd Hstep]].
+        apply ok_inj in Hstep. inversion Hstep; subst. apply (IHemb Hws tot b vs0 n1 Hw Hd Htv).
+      - destruct s; try contradiction. apply bind_ok in Hstep as [[vs0 n0] [Hd Hstep]].
+        apply ok_inj in Hstep. inversion Hstep; subst. apply (IHemb Hws tot b vs0 n1 Hw Hd Htv). }
+    rewrite Hfb. cbn [bind]. rewrite IHr. cbn [bind]. rewrite <- firstn_add. reflexivity.
+  - (* ANil *) intros d _ tot c b v n _ H. cbn [decode_alt] in H. discriminate.
+  - (* ACons *) intros c' s [IHs _] r IHr d [Hws [_ Hwr]] tot c b v n Hw H Ht. cbn [decode_alt] in H.
+    cbn [encode_alt]. cbn [times_ok_alt] in Ht.
+    destruct (c =? c'); [apply (proj2 (IHs Hws tot true b v n Hw H) Ht) | eapply IHr; eauto].
+Qed.
+
+Theorem canonical : forall s, wfc s -> forall tot d b v n, wfb b ->
+  decode true tot s b = Ok (v, n) -> times_ok s v -> encode true d s v = Ok (firstn n b).
+Proof. intros s Hwf tot d b v n Hw H Ht. apply (proj2 (proj1 (proj1 canonical_all s) Hwf tot d b v n Hw H) Ht). Qed.
+
+(* no malleability: two byte strings the validating decoder maps to the same value agree on the consumed prefix *)
+Corollary canonical_injective : forall s, wfc s -> forall tot b1 b2 v n1 n2, wfb b1 -> wfb b2 ->
+  decode true tot s b1 = Ok (v, n1) -> decode true tot s b2 = Ok (v, n2) -> times_ok s v -> firstn n1 b1 = firstn n2 b2.
+Proof.
+  intros s Hwf tot b1 b2 v n1 n2 H1 H2 D1 D2 Ht.
+  pose proof (canonical s Hwf tot true b1 v n1 H1 D1 Ht) as E1.
+  pose proof (canonical s Hwf tot true b2 v n2 H2 D2 Ht) as E2.
+  rewrite E1 in E2. apply ok_inj in E2. exact E2.
+Qed.
+
 (* above MaxInt64 ns the decoder saturates / wraps: the one documented non-injective case *)
 Example refuted_time_saturation :
   Decode true STime [0; 0; 0; 0; 0; 0; 0; 128] = Ok (VTime (-9223372036854775808), 8%nat) /\
@@ -593,20 +655,22 @@ Definition exc_schema : schema :=
     (FCons FPlain (SMap L8 (mkAR 0 0 false false false false [] false) (SInt false W2) (SString L16 0 0))
     (FCons FOpt (SPtr (SStruct None (FCons FPlain SBool FNil)))
     (FCons FPlain (SSlice L32 (mkAR 0 3 true true false false [] true) (SInt true W1))
-    (FCons FPlain (SIface Den8 (ACons 1 (SPtr (SStruct (Some (TC8 1)) (FCons FPlain SU256 FNil))) ANil)) FNil)))).
+    (FCons FPlain (SIface Den8 (ACons 1 (SPtr (SStruct (Some (TC8 1)) (FCons FPlain SU256 (FCons FPlain STime FNil)))) ANil)) FNil)))).
 
 Example canonical_nonvacuous :
   wfc exc_schema /\
-  exists b v, wfb b /\ Decode true exc_schema b = Ok (v, length b) /\ Encode true exc_schema v = Ok b /\ (20 < length b)%nat.
+  exists b v, wfb b /\ Decode true exc_schema b = Ok (v, length b) /\ times_ok exc_schema v /\ Encode true exc_schema v = Ok b /\ (20 < length b)%nat.
 Proof.
   split.
   - cbn. repeat split; auto.
   - pose (v := VL [VMap [(VInt 2, VBytes []); (VInt 513, VBytes [104; 105])]; VL [VBool true]; VL [VInt (-1); VInt 5];
-                   VIface 1 (VL [VBig 258])]).
+                   VIface 1 (VL [VBig 258; VTime 1700000000000000000])]).
     pose (b := match Encode true exc_schema v with Ok b => b | _ => [] end).
     exists (b), (canon true exc_schema v).
     split; [unfold wfb; vm_compute; repeat constructor |].
-    split; [vm_compute; reflexivity |]. split; vm_compute; [reflexivity | lia].
+    split; [vm_compute; reflexivity |].
+    split; [cbn; repeat (first [exact I | apply Forall_nil | apply Forall_cons | split]); vm_compute; try discriminate; auto |].
+    split; vm_compute; [reflexivity | lia].
 Qed.
 
 (* swapped map entries, a duplicated set element, a padded optional marker and a non-canonical bool are rejected *)
